@@ -595,3 +595,85 @@ def rule_dictidx(facts, cg):
                               "a bounds validation of the index buffer: a corrupted page selects rows past the dictionary (panic / out-of-range read)",
                               rec["file"], sk.line)
     return r
+
+
+# ------------------------------------------------------------------------------------------------------------------ STALE
+def rule_stale(facts, cg):
+    """A length guard protects a slice `buf[..n]` only as long as the length it compared still describes `buf`. If the guard compares
+    `n` with a running length variable and that variable (or the buffer) is advanced between the guard and the slice, the guard has
+    checked the wrong remaining length (here: before stripping an 8-byte frame prefix) and a file-controlled `n` a few bytes too
+    large passes the check and panics in the slice."""
+    r = RuleResult("C19-STALE", "where a range index bound was compared with a running length variable, the indexed buffer is not re-sliced between the comparison "
+                   "and the indexing", floor=3)
+    for rec in live_reader_fns(facts, cg):
+        if "Range" not in str(rec["bbs"]):
+            continue
+        fn = Fn(rec)
+        cmps = []
+        for b, i, pl, rv, ln in fn.assigns():
+            if rv[0] == "bin" and rv[1] in ("Lt", "Le", "Gt", "Ge") and fn.term(b)[0] == "switch":
+                cmps.append((b, rv[2], rv[3], ln))
+        if not cmps:
+            continue
+
+        def root(op, at):
+            if op[0] not in ("c", "m"):
+                return None
+            l = op[1][0]
+            for _ in range(8):
+                sd = fn.single_def(l)
+                if sd and sd[0] == "a" and sd[3][0] in ("use", "cast") and (sd[3][1] if sd[3][0] == "use" else sd[3][2])[0] in ("c", "m"):
+                    src = sd[3][1] if sd[3][0] == "use" else sd[3][2]
+                    if src[1][1]:
+                        break
+                    l = src[1][0]
+                    continue
+                break
+            return l
+        for c in fn.calls():
+            if not (c.decl.startswith("std::ops::Index") and len(c.args) >= 2) or "Range" not in " ".join(c.gargs or []):
+                continue
+            ro = fn.origin(c.args[1], at=c.bb)
+            if ro[0] != "rv" or ro[1][0] != "agg":
+                continue
+            for bnd in ro[1][2]:
+                if bnd[0] == "k":
+                    continue
+                n = root(bnd, c.bb)
+                if n is None:
+                    continue
+                guards = []
+                for gb, x, y, gln in cmps:
+                    if not fn.dominates(gb, c.bb) or gb == c.bb:
+                        continue
+                    rx, ry = root(x, gb), root(y, gb)
+                    if rx == n and ry is not None:
+                        guards.append((gb, ry, gln))
+                    elif ry == n and rx is not None:
+                        guards.append((gb, rx, gln))
+                running = [(gb, L, gln) for gb, L, gln in guards if len([d for d in fn.defs.get(L, []) if d[0] in ("a", "call")]) >= 2]
+                if not running:
+                    continue
+                r.functions.add(fn.id)
+                r.call_sites += 1
+                fresh = False
+                why = None
+                buf = root(c.args[0], c.bb)
+                if buf is not None:
+                    sd = fn.single_def(buf)
+                    if sd and sd[0] == "a" and sd[3][0] == "ref" and sd[3][2][1] in ([], ["*"]):
+                        buf = sd[3][2][0]          # reborrow `&*input`: the buffer variable itself
+                for gb, L, gln in running:
+                    # blocks strictly between the guard and the indexing (on paths guard → … → index that do not pass the index block first)
+                    between = (fn.reachable_from(gb, avoid=[c.bb]) & {x for x in range(fn.n) if c.bb in fn.reachable_from(x)}) - {gb, c.bb}
+                    rebuf = [d for d in fn.defs.get(buf, []) if d[0] in ("a", "call") and d[1] in between] if buf is not None else []
+                    if not rebuf:
+                        fresh = True
+                    else:
+                        why = (fn.local_name(L), gln, fn.local_name(buf))
+                r.inst({"fn": fn.id, "line": c.line, "bound": fn.local_name(n), "guards_on_running_length": len(running), "a_guard_is_current": fresh}, fresh)
+                if not fresh:
+                    r.violate(fn.id, f"stale-length-guard:{why[2]}", f"the bound of the slice at line {c.line} was compared with `{why[0]}` at line {why[1]}, but the buffer `{why[2]}` "
+                              "is re-sliced between that comparison and the slice: the comparison used a length that no longer describes the buffer being cut",
+                              rec["file"], c.line)
+    return r
